@@ -120,6 +120,15 @@ func Eval(e ast.Expr, env map[string]constant.Value, iota int64) constant.Value 
 // mapLit finds, inside function fn, the composite literal assigned to variable
 // name and returns its key/value expressions in source order.
 func (f *File) MapLit(fn, name string) [][2]ast.Expr {
+	out, found := f.TryMapLit(fn, name)
+	if !found {
+		Fatal("map literal %s in func %s of %s not found", name, fn, f.Path)
+	}
+	return out
+}
+
+// TryMapLit is MapLit that reports a missing literal instead of stopping.
+func (f *File) TryMapLit(fn, name string) ([][2]ast.Expr, bool) {
 	var out [][2]ast.Expr
 	found := false
 	for _, d := range f.F.Decls {
@@ -152,17 +161,18 @@ func (f *File) MapLit(fn, name string) [][2]ast.Expr {
 				}
 				found = true
 				for _, el := range cl.Elts {
-					kv := el.(*ast.KeyValueExpr)
+					kv, ok := el.(*ast.KeyValueExpr)
+					if !ok {
+						found = false
+						return false
+					}
 					out = append(out, [2]ast.Expr{kv.Key, kv.Value})
 				}
 			}
 			return true
 		})
 	}
-	if !found {
-		Fatal("map literal %s in func %s of %s not found", name, fn, f.Path)
-	}
-	return out
+	return out, found
 }
 
 func MustInt(env map[string]constant.Value, name string) int64 {
